@@ -292,8 +292,20 @@ def run(ctx):
     from rules import C07
     for inst, v in sorted(C07.smtpd_size_sites(db, rep).items()):
         r3.check(v[0], inst, v[1], v[2], v[3])
+    # the refusals above work only through the failure latch of qmail.c: once set, no envelope reaches the queue program
+    ls_, _ = C07.latch_sites(db, rep, prog)
+    for inst, v in sorted(ls_.items()):
+        if inst.startswith('qmail_from:') or inst.startswith('qmail_put:') or inst.startswith('qmail_fail:') or inst.startswith('qmail_close:'):
+            r3.check(v[0], 'latch:' + inst, v[1], v[2], v[3])
     r3.note(hop_states=nst)
-    r3.expect_min(2)
+    r3.expect_min(6)
+
+    # ---- round trip with this package's own client
+    r5 = rep.rule('C05.5-round-trip', 'R-TRANSDUCER', 'what qmail-remote puts on the wire for a message is decoded by an RFC 5321 receiver to exactly the lines of the message (the receiver side is rule 1); a message whose last line is unterminated is refused by the client, never silently completed')
+    from rules import C06
+    for inst, v in sorted(C06.encoder_sites(db, rep).items()):
+        r5.check(v[0], 'client:' + inst, v[1], v[2], v[3])
+    r5.expect_min(5)
 
     # ---- same stream afterwards
     r4 = rep.rule('C05.4-same-stream', 'R-EFFECT', 'message bytes and commands are read through one substdio object on descriptor 0, so bytes after the terminator are the next command whatever the chunking')
